@@ -235,8 +235,10 @@ def run_recheck(case):
         # parent_named: the payload's parent directory carries the payload's own name
         pdir = os.path.join(sbx, "p", tree["name"]) if case.get("parent_named") else os.path.join(sbx, "p")
         root = alpha.materialize(tree, pdir)
-        os.makedirs(os.path.join(sbx, "o"))
-        out = os.path.join(sbx, "o", "m.torrent")
+        from .core import odd_meta
+        mdir, mname = odd_meta(case)
+        os.makedirs(os.path.join(sbx, mdir))
+        out = os.path.join(sbx, mdir, mname)
         rec = {"id": case["id"], "op": "recheck", "group": case.get("group", "none"),
                "clauses": case["clauses"], "version": case["version"], "P": case["P"],
                "meta_src": case["meta_src"], "route": case.get("route", "lib"),
